@@ -308,7 +308,7 @@ func checkC15(e *Env) {
 	errKinds.Add("calls_inside_histories", histCalls)
 
 	// the concurrent flavour of this monitor (C12 is the full treatment)
-	concCalls := e.concurrentSmoke(drv, "C15", e.smokePool("C15", "chk"), e.pick(2, 12), e.pick(300, 1500))
+	concCalls := e.concurrentSmoke(drv, "C15", e.smokePool("C15", "chk"), e.pick(2, 12), e.pick(300, 1500), e.smokeErrClass())
 
 	if e.Violations() == 0 && (byDefect.Get("count") == 0 || byDefect.Get("checksum") == 0 || byDefect.Get("unknown") == 0) {
 		fatalInconclusive("C15: a defect class was not explored")
